@@ -74,12 +74,13 @@ func TestC01Large(t *testing.T) {
 		{"counters70000/inner/I64/proto", counters(70000, 3), "I64", "pairdup", OptSpec{0, 2, 0, 0}, "proto"},
 		{"short10/filter/nil", shortTree(10), "I32", "", OptSpec{0, 0, 0, 0}, "reload"},
 		{"short9/complete/I16", shortTree(9), "I16", "distinct", OptSpec{2, 2, 2, 0}, ""},
+		{"short8/inner/I32/proto", shortTree(8), "I32", "runs", OptSpec{0, 2, 0, 0}, "proto"},
 	}
 	if thorough() {
 		specs = append(specs,
 			spec{"rand8x100000/complete/String16", randKeys(100000, 8, 4), "String16", "runs", OptSpec{0, 0, 0, 2}, "reload"},
 			spec{"counters100000/filter/I8", counters(100000, 1), "I8", "distinct", OptSpec{1, 0, 0, 0}, ""},
-			spec{"short8/leaf/U64", shortTree(8), "U64", "distinct", OptSpec{0, 0, 2, 0}, "proto"},
+			spec{"short7/leaf/U64", shortTree(7), "U64", "distinct", OptSpec{0, 0, 2, 0}, "proto"},
 			spec{"rand8x70000/legacyE", randKeys(70000, 8, 5), "I32", "distinct", OptSpec{1, 0, 0, 0}, "E"},
 			spec{"rand8x70000/0.5.10/complete", randKeys(70000, 8, 6), "I32", "distinct", OptSpec{0, 0, 0, 2}, "0.5.10"},
 		)
